@@ -140,7 +140,7 @@ CLAIMED['C03'] = dict(
          '(A) resolve_imports hands to the aggregator exactly the unsatisfied arguments of live instantiations (node order, world order) followed by the explicit imports, records '
          'them in implicit_imports / explicit_imports, returns ImplicitImportConflict exactly when a required name is an explicit import, ImportTypeMergeConflict exactly when the '
          'aggregator refuses, and never panics; (B) CompositionGraph::imports lists exactly the same requirements (so the two agree); (C) encode_imports emits every aggregated import '
-         'once, instances first, and binds every implicit argument and explicit import node to the index of its canonical import. Sharing/naming of the aggregated imports is C09. '
+         'once, instances first, and binds every implicit argument and explicit import node to the index of its canonical import; (D) import() reuses an interface that is already imported in the scope, otherwise emits one import of the item\'s own kind under the given name and records it for reuse. Sharing/naming of the aggregated imports is C09. '
          'NOT claimed: the bytes of the import/export sections (ComponentBuilder, TypeEncoder), exports, used-interface imports, independence of node creation order.',
     note='Trusted: RI of C06 as pre-state, contracts of TypeAggregator::{aggregate, imports, canonical_import_name} (C09), `self.import` as an event, M2S, z3. Counterexamples are rule-level (over the MIR); listing witnesses are replayed through the public API.',
     design='DESIGN.md section 9.2 / C03')
